@@ -258,7 +258,13 @@ type C02Rich struct {
 	MI  map[int]string
 	L   [][]string
 	IP  *any
+	NA  C02Any
+	NAS []C02Any
 }
+
+// C02Any is a named empty interface: the library routes it through another
+// decoder than plain `any`.
+type C02Any interface{}
 
 func c02Type(t *tape.Tape) (reflect.Type, string) {
 	switch t.Pick(4, 5, 1, 1, 1) {
@@ -289,8 +295,18 @@ func seedIfacePointers(t *tape.Tape, v reflect.Value, depth int) int {
 		if v.NumMethod() == 0 && v.CanSet() && t.Chance(1, 3) {
 			pt := ifacePtrTypes[t.Intn(len(ifacePtrTypes))]
 			p := reflect.New(pt)
-			(&gen.Values{T: t, C: gen.JSON, MaxMap: 2, MaxLen: 3}).Fill(p.Elem())
-			v.Set(p)
+			switch t.Pick(6, 1, 2) {
+			case 0:
+				(&gen.Values{T: t, C: gen.JSON, MaxMap: 2, MaxLen: 3}).Fill(p.Elem())
+				v.Set(p)
+			case 1:
+				// an interface holding a typed nil pointer
+				v.Set(reflect.Zero(reflect.PointerTo(pt)))
+			default:
+				// an interface holding a plain (non-pointer) value
+				(&gen.Values{T: t, C: gen.JSON, MaxMap: 2, MaxLen: 3}).Fill(p.Elem())
+				v.Set(p.Elem())
+			}
 			n++
 		}
 	case reflect.Ptr:
@@ -486,6 +502,13 @@ func runC02(r *core.Run) {
 			n1, n2 := 5, 6
 			var a any = &n2
 			return reflect.ValueOf(&C02Rich{I: &n1, IP: &a})
+		}
+		seg, std, pre = mk(), mk(), 2
+	}
+	if sc.Preset == "iface-typed-nil-and-named" {
+		// I holds a typed nil pointer; NA (a named empty interface) holds a plain value
+		mk := func() reflect.Value {
+			return reflect.ValueOf(&C02Rich{I: (*ZInner)(nil), NA: "before"})
 		}
 		seg, std, pre = mk(), mk(), 2
 	}
